@@ -216,6 +216,44 @@ def width_leg(acc, srv, rng, n):
                 acc.violation("%s of %d gives %r" % (name, lo, r.get("v", r.get("e"))), {"kind": "fn", "f": "u_from_u128", "a": [str(lo)]})
 
 
+def fmt_leg(acc, srv, rng, n):
+    """the same Display impls driven through format specifications ({:.18}, {:>40}, {:<30.24}, ...): whatever a specification
+    adds (padding, trailing zeros), the text without the padding must still be a numeral of exactly the value (a precision of
+    18 or more cannot legitimately lose a digit of an 18-digit fraction)."""
+    import re
+    vals = dec_values(rng, n)
+    reqs, specs = [], []
+    for v in vals:
+        prec = rng.choice([None, 18, 18, 19, 24, 40])
+        width = rng.choice([None, None, 0, 10, 18, 30, 60, 100])
+        left = rng.random() < 0.3
+        specs.append((prec, width, left))
+        reqs += [("d_fmt", [to_limbs(v), prec, width, left]), ("u_fmt", [to_limbs(v), rng.choice([None, 0, 5, 18]), width])]
+    res = srv.calls(reqs)
+    for i, (v, spec) in enumerate(zip(vals, specs)):
+        rd, ru = res[2 * i], res[2 * i + 1]
+        acc.ev()
+        acc.count("fmt_cases")
+        acc.cls("fmt", "p%s" % spec[0], "w%s" % spec[1], "L" if spec[2] else "R", gen.bucket(v))
+        probs = []
+        if rd["r"] != "ok":
+            probs.append("formatting a Decimal256 aborted: %s" % rd.get("e", "")[:80])
+        else:
+            t = rd["v"].strip(" ")
+            m = re.match(r"^(\d+)(?:\.(\d+))?$", t)
+            if not m:
+                probs.append("Decimal256 formatted with %s is %r: not a numeral" % (spec, rd["v"]))
+            else:
+                frac = m.group(2) or ""
+                got = int(m.group(1)) * D + int((frac + "0" * 18)[:18]) if not frac[18:].strip("0") else None
+                if got != v:
+                    probs.append("Decimal256 %s formatted with (precision, width, left)=%s is %r" % (dec_text(v), spec, rd["v"]))
+        if ru["r"] != "ok" or not ru["v"].strip(" ").isdigit() or int(ru["v"].strip(" ")) != v:
+            probs.append("Uint256 %d formatted with a specification is %r" % (v, ru.get("v", ru.get("e"))))
+        if probs:
+            acc.violation("; ".join(probs[:2]), {"kind": "fn", "f": "d_fmt", "a": reqs[2 * i][1], "value": str(v)})
+
+
 def swap_narrowing_leg(acc, srv, rng, n):
     """256 -> 128-bit hand-back inside compute_swap: when the exact spread floor(a*y/x) - gross does not fit 128 bits the
     call must abort; whatever is returned must be the exact value (no silent cap or truncation)."""
@@ -266,6 +304,7 @@ def run_shard(acc, prop, tier, seed, shard, nshards, **kw):
             string_cases(acc, srv, rs[i:i + 1000], "random")
         width_leg(acc, srv, rng, 3000 if tier == "quick" else 100000)
         swap_narrowing_leg(acc, srv, rng, 2000 if tier == "quick" else 60000)
+        fmt_leg(acc, srv, rng, 1500 if tier == "quick" else 40000)
         # non-string JSON must not decode
         for js in ("5", "1.5", "null", "[\"1\"]", "{\"a\":1}", "true"):
             for f in ("d_json_de", "u_json_de"):
@@ -299,6 +338,7 @@ def floors(acc, tier):
     from . import _w
     _w.need(acc, msgs, "roundtrips", 50000)
     _w.need(acc, msgs, "width_cases", 20000)
+    _w.need(acc, msgs, "fmt_cases", 15000)
     if c.get("wellformed_numerals", 0) and c.get("wellformed_numeral_rejected", 0) * 4 > c.get("wellformed_numerals", 0):
         msgs.append("more than a quarter of well-formed in-range numerals were rejected (%d/%d): acceptance path not exercised"
                     % (c.get("wellformed_numeral_rejected", 0), c.get("wellformed_numerals", 0)))
@@ -309,7 +349,7 @@ RULE = ("values: 256-bit atomics from limb grid, 10^k+-1, fractions with leading
         "canonical numeral, parsing it back (text, JSON, try_from) must give the identical value; strings: the full space over {0,1,5,9,.} up to "
         "length 6 (19 531 incl. empty; exhaustive: true for that space) plus random numerals with 17-25 fractional digits, integers around "
         "2^256/10^18 and 2^256, leading zeros, and numerals with an injected non-numeral byte (-,+,e,space,unicode digits,...); width conversions "
-        "around 2^128. Class = (leg, family/length, outcome, numeral?, dots). Lenient accepts ('', '.', '1.', '.5' read as digit runs) are counted, "
+        "around 2^128; the Display impls driven through format specifications (precision 18..40, widths, alignment). Class = (leg, family/length, outcome, numeral?, dots). Lenient accepts ('', '.', '1.', '.5' read as digit runs) are counted, "
         "not alarmed, as long as the value is the denoted one.")
 
 
